@@ -160,7 +160,7 @@ class Source:
             line_start = self.text.rfind('\n', 0, pos - 1) + 1
             line = self.text[line_start:pos - 1] if pos > 0 else ''
             st = line.strip()
-            if st.startswith('///') or st.startswith('#[') or st.startswith('//!'):
+            if st.startswith('//') or st.startswith('#['):
                 pos = line_start
                 continue
             # multi-line attribute: a line ending an attribute `)]`
@@ -414,9 +414,13 @@ class Rules:
             k = c + 1
             while k < len(masked) and masked[k] in ' \t':
                 k += 1
+            out.append(text[last:m.start()])
             if k < len(masked) and masked[k] == ';':
                 k += 1
-            out.append(text[last:m.start()])
+            else:
+                # expression position (match arm, block tail): the logging call has type ()
+                out.append('()')
+                k = c + 1
             last = k
             n += 1
         out.append(text[last:])
@@ -439,6 +443,22 @@ class Rules:
             n += 1
         out.append(text[last:])
         self.bump('R4', n)
+        return ''.join(out)
+
+    # R4f: remaining format!(...) expressions (error texts bound to a local first) -> String::new()
+    def r4f(self, text):
+        masked = mask_source(text)
+        out, last, n = [], 0, 0
+        for m in re.finditer(r'\bformat!\s*\(', masked):
+            if m.start() < last:
+                continue
+            c = match_close(masked, m.end() - 1)
+            out.append(text[last:m.start()])
+            out.append('String::new()')
+            last = c + 1
+            n += 1
+        out.append(text[last:])
+        self.bump('R4f', n)
         return ''.join(out)
 
     # R8: Verus dialect
